@@ -110,8 +110,8 @@ func check(t ev.TB, c Case, labels ...string) {
 	}
 	ev.Case(nontrivial(c), c, append(labels, fmt.Sprintf("nodes:%d", c.Nodes))...)
 	if f != nil && f.inconclusive {
-		ev.Count("inconclusive_cases", 1)
-		t.Fatalf("VERIF-INCONCLUSIVE %s", f.msg)
+		ev.Inconclusive(t, f.msg)
+		return
 	}
 	if f != nil {
 		ev.Fail(t, "tenants", c, "%s", f.msg)
